@@ -149,13 +149,17 @@ class MessageSigner(object):
         is_compressed, recid, r, s = self._decode_signature(signature)
 
         # Calculate the specific public key used to sign this message.
+        # recid bit 0 is the parity of R.y; bit 1 says that R.x was reduced modulo the
+        # group order when r was formed, ie. R.x = r + order (SEC 1, 4.1.6)
         y_parity = recid & 1
-        q = self._generator.possible_public_pairs_for_signature(
-            msg_hash, (r, s), y_parity=y_parity
-        )[0]
+        x = r
         if recid > 1:
-            order = self._generator.order()
-            q = self._generator.Point(q[0] + order, q[1])
+            x += self._generator.order()
+            if x >= self._generator.p():
+                raise EncodingError("no point for this recovery id")
+        q = self._generator.possible_public_pairs_for_signature(
+            msg_hash, (x, s), y_parity=y_parity
+        )[0]
         return q, is_compressed
 
     def pair_matches_key(self, pair: Any, key: Any, is_compressed: bool) -> bool:
